@@ -526,7 +526,9 @@ func init() {
 					var tpl *textwire.Template
 					var lerr error
 					c.Eval(1)
-					if c.Guard(func() { tpl, lerr = textwire.NewTemplate(&config.Config{TemplateDir: dir, TemplateExt: ".tw", ErrorPagePath: "errors/oops"}) }) {
+					if c.Guard(func() {
+						tpl, lerr = textwire.NewTemplate(&config.Config{TemplateDir: dir, TemplateExt: ".tw", ErrorPagePath: "errors/oops"})
+					}) {
 						return
 					}
 					c.Nontrivial(fmt.Sprint("late", i))
